@@ -4,19 +4,27 @@
    unblock scans and between its scan and its store.
 
    What is judged, from the trace of shared accesses alone (never by running the model):
-   every store of a padding header by the agent (the only 8-byte ordered store thread 0 makes into the
-   data area) must
-     - happen on a non-empty ring, at the consumer index, over a length word that is not positive;
-     - be a padding record of positive length that lies inside the data area, does not pass the producer
-       position and ends at the producer position, at the end of the data area or at a claim boundary;
-     - cover only claims that were not committed at that moment ("never hides a committed command").
-   A claim covered by the padding whose owner is still alive (it has not reached its crash point, or has
-   none) is outside the property - the algorithm assumes producers blocked for longer than the timeout are
-   dead - and ends the judgement of that case (`u_scope = false`).  Otherwise the swept claims leave the
-   set of commands that must be delivered, and the rest of the run is judged as in `holds_crash`:
-   what is delivered (by the agent's reads and by the epilogue) is a prefix, in position order, of what was
-   committed and not swept; all of it once the ring has drained; the epilogue's unblock() calls satisfy
-   `unblock_ok`, reads after a successful unblock make progress, later writes are accepted honestly. *)
+
+   (1) in every interleaving: a padding header stored by the agent (the only 8-byte ordered store thread 0
+       makes into the data area) is justified by what that unblock() call itself read (`confirm_ok`): either
+       its first look at the consumer index found a negative length and the padding has that length, or it
+       found zero there, later found a non-zero length word at consumer index + L, and after that re-read
+       every length word from consumer index + L - 8 down to the consumer index as zero
+       (scan_back_to_confirm_still_zeroed) with nothing else in between;
+
+   (2) whenever every length word the call read as zero or negative belonged to a claim whose owner had
+       already reached its crash point (the algorithm assumes producers blocked for longer than the timeout
+       are dead; a live producer's uncommitted claim in the scanned range puts the case outside the property,
+       `u_scope = false`), the store must
+         - happen on a non-empty ring, at the consumer index, over a length word that is not positive;
+         - be a padding record of positive length that lies inside the data area, does not pass the producer
+           position and ends at the producer position, at the end of the data area or at a claim boundary;
+         - cover only claims that were not committed at that moment ("never hides a committed command");
+       the swept claims leave the set of commands that must be delivered, and the rest of the run is judged
+       as in `holds_crash`: what is delivered (by the agent's reads and by the epilogue) is a prefix, in
+       position order, of what was committed and not swept; all of it once the ring has drained; the
+       epilogue's unblock() calls satisfy `unblock_ok`, reads after a successful unblock make progress,
+       later writes are accepted honestly. *)
 Require Import V.Base.MachineInt.
 Require Import V.Generated.GenConsts.
 Require Import V.Model.LogBase.
@@ -41,9 +49,45 @@ Definition pad_store_ok (cp h t : Z) (cl : list claim) (off v before : Z) : bool
   && ((E =? t) || (E mod cp =? 0) || existsb (fun c => (k_from c =? E) || (k_to c =? E)) cl)
   && forallb (fun c => negb (k_done c)) (covered cl h E).
 
-Record ust := mkUst { u_h : Z; u_t : Z; u_cl : list claim; u_swept : list Z; u_scope : bool; u_pads : Z }.
+(* n entries (o, 0), (o + d, 0), .. at the front of l; the rest *)
+Fixpoint zero_run (l : list (Z * Z)) (o d : Z) (n : nat) : option (list (Z * Z)) :=
+  match n with
+  | O => Some l
+  | S k => match l with
+           | (o', v) :: r => if (o' =? o) && (v =? 0) then zero_run r (o + d) d k else None
+           | [] => None
+           end
+  end.
 
-(* follows the trace: positions, claims (as claims_rev of C06Oracle), the agent's padding stores; None = violated *)
+(* reads = the (offset, value) pairs of the 4-byte reads of this unblock() call, newest first *)
+Definition confirm_ok (reads : list (Z * Z)) (ci L : Z) : bool :=
+  match rev reads with
+  | (o0, v0) :: _ =>
+      (o0 =? ci) &&
+      (if v0 <? 0 then (L =? wrap32 (- v0)) && (length reads =? 1)%nat
+       else if v0 =? 0 then
+         (0 <? L) && (L mod 8 =? 0) &&
+         let n := Z.to_nat (L / 8) in
+         match zero_run reads ci 8 n with
+         | Some ((oh, vh) :: r2) =>
+             (oh =? ci + L) && negb (vh =? 0) &&
+             match zero_run r2 (ci + L - 8) (-8) n with Some [] => true | _ => false end
+         | _ => false
+         end
+       else false)
+  | [] => false
+  end.
+
+(* u_scope: no padding was stored by a call that is outside the property; u_call: the call in progress is inside it so far *)
+Record ust := mkUst { u_h : Z; u_t : Z; u_cl : list claim; u_swept : list Z; u_scope : bool; u_pads : Z; u_reads : list (Z * Z); u_call : bool }.
+
+Definition set_cl (s : ust) (h t : Z) (cl : list claim) : ust := mkUst h t cl (u_swept s) (u_scope s) (u_pads s) (u_reads s) (u_call s).
+
+(* the claim that contains position p, when it is not committed and its owner is alive *)
+Definition live_uncommitted (cl : list claim) (counts stops : list Z) (p : Z) : bool :=
+  existsb (fun c => (k_from c <=? p) && (p <? k_to c) && negb (k_done c) && negb (stopped counts stops (Z.to_nat (k_tid c)))) cl.
+
+(* follows the trace: positions, claims (as claims_rev of C06Oracle), the agent's reads and padding stores; None = violated *)
 Fixpoint walk_trace (cp : Z) (stops : list Z) (tr : list event) (counts : list Z) (s : ust) : option ust :=
   match tr with
   | [] => Some s
@@ -52,30 +96,32 @@ Fixpoint walk_trace (cp : Z) (stops : list Z) (tr : list event) (counts : list Z
       let cl := u_cl s in
       if akind_eqb k CompareAndSetI64 && (off =? cp + TAIL_OFF) then
         (if before =? v
-         then walk_trace cp stops r counts' (mkUst (u_h s) v2 (mkClaim tid v v2 0 0 false :: cl) (u_swept s) (u_scope s) (u_pads s))
+         then walk_trace cp stops r counts' (set_cl s (u_h s) v2 (mkClaim tid v v2 0 0 false :: cl))
          else walk_trace cp stops r counts' s)
       else if akind_eqb k PutOrdered && (off =? cp + HEAD_OFF) then
-        walk_trace cp stops r counts' (mkUst v (u_t s) cl (u_swept s) (u_scope s) (u_pads s))
+        walk_trace cp stops r counts' (set_cl s v (u_t s) cl)
+      else if akind_eqb k GetVolatile && (tid =? 0) && (off =? cp + HEAD_OFF) then
+        (* a call of the agent starts *)
+        walk_trace cp stops r counts' (mkUst (u_h s) (u_t s) cl (u_swept s) (u_scope s) (u_pads s) [] true)
+      else if akind_eqb k GetVolatile && (tid =? 0) && (len =? 4) then
+        (* unblock() looks at a length word; `before` is the value it gets *)
+        let p := u_h s + (off - u_h s mod cp) in
+        let out := (off <? cp) && (before <=? 0) && live_uncommitted cl counts stops p in
+        walk_trace cp stops r counts' (mkUst (u_h s) (u_t s) cl (u_swept s) (u_scope s) (u_pads s) ((off, before) :: u_reads s) (u_call s && negb out))
       else if akind_eqb k PutOrdered && (off <? cp) && (len =? 8) then
         (if tid =? 0 then
            let hit := covered cl (u_h s) (u_h s + align (lo32 v) 8) in
-           if negb (forallb (fun c => stopped counts stops (Z.to_nat (k_tid c))) hit)
-           then (* the padding covers a claim whose owner is alive: outside the property *)
-                walk_trace cp stops r counts' (mkUst (u_h s) (u_t s) cl (u_swept s) false (u_pads s + 1))
+           if negb (confirm_ok (u_reads s) (u_h s mod cp) (lo32 v)) then None
+           else if negb (u_scope s && u_call s) then walk_trace cp stops r counts' (mkUst (u_h s) (u_t s) cl (u_swept s) false (u_pads s + 1) [] true)
            else if pad_store_ok cp (u_h s) (u_t s) cl off v before
-           then walk_trace cp stops r counts'
-                  (mkUst (u_h s) (u_t s) cl (map k_from hit ++ u_swept s) (u_scope s) (u_pads s + 1))
+           then walk_trace cp stops r counts' (mkUst (u_h s) (u_t s) cl (map k_from hit ++ u_swept s) true (u_pads s + 1) [] true)
            else None
          else if hi32 v =? PAD then walk_trace cp stops r counts' s
          else walk_trace cp stops r counts'
-                (mkUst (u_h s) (u_t s)
-                       (upd_latest cl tid (fun c => mkClaim (k_tid c) (k_from c) (k_to c) (hi32 v) (- lo32 v) false))
-                       (u_swept s) (u_scope s) (u_pads s)))
+                (set_cl s (u_h s) (u_t s) (upd_latest cl tid (fun c => mkClaim (k_tid c) (k_from c) (k_to c) (hi32 v) (- lo32 v) false))))
       else if akind_eqb k PutOrdered && (off <? cp) && (len =? 4) then
         walk_trace cp stops r counts'
-          (mkUst (u_h s) (u_t s)
-                 (upd_latest cl tid (fun c => mkClaim (k_tid c) (k_from c) (k_to c) (k_type c) (k_len c) (v =? k_len c)))
-                 (u_swept s) (u_scope s) (u_pads s))
+          (set_cl s (u_h s) (u_t s) (upd_latest cl tid (fun c => mkClaim (k_tid c) (k_from c) (k_to c) (k_type c) (k_len c) (v =? k_len c))))
       else walk_trace cp stops r counts' s
   end.
 
@@ -114,7 +160,7 @@ Definition judge_uconc (cp p0 : Z) (pre : list op) (progs : list (list wreq)) (s
   match res with
   | agent_r :: _ =>
       match agent_delivered agent_r, check_to cp (mkOst [] p0 p0 []) pre o1,
-            walk_trace cp stops tr (repeat 0 (length res)) (mkUst h1 t1 [] [] true 0) with
+            walk_trace cp stops tr (repeat 0 (length res)) (mkUst h1 t1 [] [] true 0 [] true) with
       | Some d0, Some s1, Some s2 =>
           if negb (u_scope s2) then (true, false)
           else
@@ -145,7 +191,7 @@ Definition holds_uconc (cp p0 : Z) (pre : list op) (progs : list (list wreq)) (s
 Definition class_uconc (cp p0 : Z) (pre : list op) (stops : list Z) (obs : list out * list event * list atres * list out) : Z :=
   let '(o1, tr, res, o3) := obs in
   let '(h1, t1) := last_ht p0 o1 in
-  match walk_trace cp stops tr (repeat 0 (length res)) (mkUst h1 t1 [] [] true 0) with
+  match walk_trace cp stops tr (repeat 0 (length res)) (mkUst h1 t1 [] [] true 0 [] true) with
   | Some s2 => if negb (u_scope s2) then 0 else if 0 <? u_pads s2 then 2 else 1
   | None => -1
   end.
